@@ -216,6 +216,8 @@ def run(chk: Check):
         chk.count("scheduler:" + sched)
         scn.model_mutates = i % 4 == 2
         chk.count("model:" + ("writes_into_its_argument" if scn.model_mutates else "pure"))
+        scn.model_mixed_dtype = i % 5 == 3
+        chk.count("model_output:" + ("integer_for_whole-number_parameters_float_otherwise" if scn.model_mixed_dtype else "float"))
         scn.keep_buffers = i % 3 == 1
         chk.count("sampler_arrays:" + ("one_buffer_rewritten_in_place" if scn.keep_buffers else "fresh_each_call"))
         if rng.random() < 0.4:
